@@ -164,6 +164,35 @@ def run(tier, seed, rng):
         groups.append(CG)
     records, disagreements = pktcases.run_groups(groups, 'c02')
     failures = []
+    # ---- ONE table of field objects handed out by the selectors of TWO fields of a packet (source / destination address by type):
+    # each field is serialized from and parsed into its own attribute, also when both select the very same object
+    tsrc = ("ADDR = {1: Data(4), 4: Data(6), 2: Int(2)}\n"
+            "class Route(Packet):\n    st = Int(1, default=1)\n    src = Ref(st.chooses(ADDR), default=b'\\0\\0\\0\\0')\n    dt = Int(1, default=1)\n    dst = Ref(dt.chooses(ADDR), default=b'\\0\\0\\0\\0')\n    t = Int(1)\n"
+            "class RouteL(Packet):\n    __bisturi__ = {'generate_for_pack': False, 'generate_for_unpack': False}\n    st = Int(1, default=1)\n    src = Ref(st.chooses(ADDR), default=b'\\0\\0\\0\\0')\n    dt = Int(1, default=1)\n    dst = Ref(dt.chooses(ADDR), default=b'\\0\\0\\0\\0')\n    t = Int(1)\n"
+            "class Hop(Packet):\n    k = Int(1, default=2)\n    via = Ref(k.chooses(ADDR), default=0)\n")
+    tvals = {1: (b'\n\x00\x00\x01', b'\n\x00\x00\x02'), 4: (b'abcdef', b'uvwxyz'), 2: (258, 772)}
+    def tenc(k, v):
+        return bytes([k]) + (v if isinstance(v, bytes) else v.to_bytes(2, 'big'))
+    tcases, twant = [], []
+    for cls in ('Route', 'RouteL', 'Route'):
+        for ks in (1, 4, 2):
+            for kd in (1, 4, 2):
+                a, b = tvals[ks][0], tvals[kd][1]
+                enc = tenc(ks, a) + tenc(kd, b) + b'\x07'
+                tcases.append(dict(cls=cls, op='pack', value={"py": f"{cls}(st={ks}, src={a!r}, dt={kd}, dst={b!r}, t=7)"})); twant.append(('pack', enc, None))
+                tcases.append(dict(cls=cls, op='roundtrip', raw=enc.hex(), offset=0)); twant.append(('rt', enc, (a, b)))
+        tcases.append(dict(cls='Hop', op='pack', value={"py": "Hop(k=2, via=515)"})); twant.append(('pack', b'\x02\x02\x03', None))
+    tres = run_impl(os.path.join(VERIF, 'harness', 'impl_pkt.py'), dict(header=decl.HEADER_PY, blocks=[dict(name='sharedaddr', src=tsrc)], modname='c02t', cases=tcases))
+    cv = lambda v: {'x': v.hex()} if isinstance(v, bytes) else v
+    for c, o, (kind_, enc, ab) in zip(tcases, tres['outcomes'], twant):
+        if kind_ == 'pack':
+            ok = o.get('ok') == enc.hex()
+        else:
+            f = dict(o['ok']['f']) if 'ok' in o else {}
+            ok = 'ok' in o and f.get('src') == cv(ab[0]) and f.get('dst') == cv(ab[1]) and (o.get('packed') or {}).get('ok') == enc.hex() and o.get('end') == len(enc)
+        if not ok:
+            failures.append(dict(kind='oracle', sig='shared-option-table-two-fields', what=f"two fields of one packet select from ONE table of field objects: {c.get('value', {}).get('py') or c.get('raw')} must give {enc.hex()}" + ('' if ab is None else f" with src={ab[0]!r}, dst={ab[1]!r}"),
+                                 classes=tsrc, cls=c['cls'], **({'raw': c['raw'], 'offset': 0} if 'raw' in c else {'value': c['value']['py']}), observed=o))
     dist = dict(values=0, packed=0, reparsed_equal=0, not_serializable=0, reference_encoding_checked=0, with_positioning=0, census=0, in_sequential_theorem=0, in_extended_theorem=0)
     last_pack = {}
     consistency = {}
